@@ -216,7 +216,7 @@ func svBidEnv(hostile bool) (*svMore, *svBidPre, int) {
 //
 // sv:bounds 3 parties with arbitrary balances; the name a.ol owned by A or by C, on sale or not, any expiry height; a conversation between owner A and bidder B about it: absent, active with a locked bid offer of any amount, active with a counter offer of any amount, or cancelled; any deadline (before or after the block time); a bystander conversation between A and bidder C with a locked offer of any amount; one transaction of the six kinds by any party naming itself, any integer amount in OLT or an unregistered currency, conversation id = the A-B conversation's, the A-C conversation's or (create) empty for a new conversation; mempool-admitted regime
 // sv:outside the example asset type; sequences of bid transactions; the block-begin/-end expiry queue
-// sv:goal the OLT total of balances, pools and locked bid amounts does not increase; no stored amount (balance, locked offer) is negative; the lock of the conversation the transaction does not name is untouched; after a successful transaction the locked amount and the balances moved exactly as the kind prescribes (create: bidder pays the amount into the lock; counter offer / cancel / refusal / expiry: the locked amount goes back to the bidder; owner acceptance: the locked amount goes to the owner; bidder acceptance: the bidder pays the counter offer to the owner)
+// sv:goal the OLT total of balances, pools and locked bid amounts does not increase; no stored amount (balance, locked offer) is negative; the lock of the conversation the transaction does not name is untouched; after a successful transaction the locked amount and the balances moved exactly as the kind prescribes (create: bidder pays the amount into the lock; counter offer / cancel / refusal / expiry: the locked amount goes back to the bidder; owner acceptance: the locked amount goes to the owner; bidder acceptance: the bidder pays the counter offer to the owner); a bidder never has two active conversations with the same owner about the same name
 func SV_C02_bid() {
 	svCurrencyLimit = 2
 	m, pre, kind := svBidEnv(false)
@@ -283,6 +283,10 @@ func SV_C02_bid() {
 	case 0:
 		// the bidder pays the new amount into the lock (a replaced counter offer held nothing)
 		sv.Assert(net(actor).Sign() <= 0 && dLock.Cmp(new(big.Int).Neg(net(actor))) == 0, "create-locks-exactly-what-the-bidder-pays")
+		if fresh && sv.Choice("create.owner", 2) == 0 {
+			// a new conversation with owner A about a.ol: C already has an active one, B has one in states 1 and 2
+			sv.Assert(actor != "C" && !(actor == "B" && (pre.state == 1 || pre.state == 2)), "one-active-conversation-per-owner-asset-and-bidder")
+		}
 		sv.Cover(true, "ok:create")
 	case 1, 2, 4:
 		sv.Assert(lock1.Sign() == 0 && net(bidder).Cmp(locked) == 0, "locked-amount-goes-back-to-the-bidder")
